@@ -22,6 +22,7 @@ def normalise(text):
         i = text.find(cut)
         if i > 0:
             text = text[:i]
+    text = re.sub(r"fixed_objective_[0-9a-f-]+", "fixed_objective_UUID", text)
     text = _ID_RE.sub("<id>", text)
     text = re.sub(r"-?\d+(\.\d+)?(e-?\d+)?", "#", text)
     return text.strip()[:120]
